@@ -60,3 +60,18 @@ Proof.
   destruct (in_tree_no_crossings_end_to_end o g g' x root CI OK NS T H) as (A & B & _). split; assumption.
 Qed.
 Print Assumptions C13_in_tree_end_to_end.
+
+(* ---------- all four size-aware positioners (Proofs/NSPWhole2.v) ---------- *)
+From Autog Require Import NSPositioner NSPWhole2.
+
+Theorem C13_out_tree_end_to_end_all_positioners : forall o g g' x root,
+  component_input g -> options_ok' o -> o_p2 o = Phase2.NetworkSimplex -> out_tree_input g root ->
+  layout_component o g = Ok (g', x) -> x = Some 0%Z /\ drawing_crossings g' = 0%Z.
+Proof. exact C13_out_tree_end_to_end'. Qed.
+Print Assumptions C13_out_tree_end_to_end_all_positioners.
+
+Theorem C13_in_tree_end_to_end_all_positioners : forall o g g' x root,
+  component_input g -> options_ok' o -> o_p2 o = Phase2.NetworkSimplex -> in_tree_input g root ->
+  layout_component o g = Ok (g', x) -> x = Some 0%Z /\ drawing_crossings g' = 0%Z.
+Proof. exact C13_in_tree_end_to_end'. Qed.
+Print Assumptions C13_in_tree_end_to_end_all_positioners.
